@@ -282,6 +282,49 @@ def gen_index_items(rng):
     return items[:8]
 
 
+# ---- Series that are views into ONE buffer (rows / columns of a square single-block Frame, a renamed Series): sharing memory is not content
+_SHARED = {}
+
+
+def gen_view_items(rng):
+    n = 3
+    labels = [['s', x] for x in rng.sample(['a', 'b', 'c', 'd'], n)]
+    if rng.random() < 0.5:
+        m = [[['i', rng.choice([1, 2, 3, 4, 7])] for _ in range(n)] for _ in range(n)]
+        dt = ['i', 64]
+    else:
+        m = [[(['nan'] if rng.random() < 0.25 else ['f', rng.choice([1, 3, 5]), 2]) for _ in range(n)] for _ in range(n)]
+        dt = ['f', 64]
+    fam = rng.randrange(10 ** 9)
+    items = []
+    for i in range(2):
+        items.append({'kind': 'series', 'cls': 'Series', 'name': labels[i], 'index': labels, 'dt': dt, 'vals': [m[i][j] for j in range(n)], 'fam': fam, 'via': ['row', i]})
+        items.append({'kind': 'series', 'cls': 'Series', 'name': labels[i], 'index': labels, 'dt': dt, 'vals': [m[j][i] for j in range(n)], 'fam': fam, 'via': ['col', i]})
+    items.append(dict(items[0], name=['s', 'renamed'], via=['row_renamed', 0]))
+    items.append(dict(items[1], via=['col_copy', 0]))
+    _SHARED[fam] = (labels, m, dt)
+    return items
+
+
+def build_view_item(it):
+    labels, m, dt = _SHARED[it['fam']]
+    key = ('frame', it['fam'])
+    if key not in _SHARED:
+        arr = P.make_array([v for row in m for v in row], dt).reshape(len(labels), len(labels))
+        arr.flags.writeable = False
+        _SHARED[key] = sf.Frame(arr, index=[P.dec(l) for l in labels], columns=[P.dec(l) for l in labels])
+    f = _SHARED[key]
+    how, i = it['via']
+    lab = P.dec(labels[i])
+    if how == 'row':
+        return f.loc[lab]
+    if how == 'col':
+        return f[lab]
+    if how == 'row_renamed':
+        return f.loc[lab].rename('renamed')
+    return sf.Series(f[lab].values.copy(), index=f.index, name=lab)
+
+
 def layouts_for_item(rng, it):
     if it['kind'] != 'frame':
         return None
@@ -315,7 +358,13 @@ def main(ctx):
         ctx.exhaustive = not quick
     events = []
     for i in range(520 if quick else 10000):
-        if i % 4 == 3:
+        if i % 11 == 5:
+            items = gen_view_items(ctx.rng)
+            objs = [build_view_item(it) for it in items]
+            for it in items:
+                it.pop('fam'), it.pop('via')
+            ctx.count('V_view_family')
+        elif i % 4 == 3:
             items = gen_index_items(ctx.rng)
             objs = [build_index_item(it) for it in items]
             for it, o in zip(items, objs):
